@@ -17,6 +17,7 @@ import props.c12 as c12
 import props.c16 as c16
 
 ID = 'C11'
+NO_LABEL_STREAMS = {'exact-positional'}      # the C13 converter streams carry their own candidate naming
 ZERO_LABELS = True      # a share of the cases is asked with candidates numbered from 0 (harness/common.py LABEL_MODE)
 LEVEL = 'proof'
 TIE = {'core.get_n_best, proportional.HighestAverages.evaluate': 'correspondence: implementation on k-fold votes vs the extracted model on the unscaled votes (k up to 10^25+7, 2^60+1)',
@@ -1001,6 +1002,25 @@ def explore(ctx, widen=1):
     ctx.differential('pure-proportionality', gen_pure(rng, ctx.n(1200, 15000) * widen), pp_model_line, pp_impl, canon=pp_canon,
                      nontrivial=lambda c: q(c['k']) > 2 ** 53 or bool(c['prev'] or c['caps']), spec=pp_spec)
     exact_type_checks(ctx, 'exact-types', ctx.n(300, 4000), rng)
+    # exactness where a float would only show on an exact tie: the withdrawal of over-awarded seats (equal margins under the
+    # Imperiali quota) and the positional scores of rank scorers with non-dyadic fractions (geometric base 3, 5, 10; Dowdall),
+    # both against the extracted models of C02 / C13
+    import props.c02 as c02
+    import props.c13 as c13
+
+    def over_award(n):
+        for c in itertools.chain(c02.gen_boundary(rng, n), c02.gen_random(rng, n)):
+            yield dict(c, quota=[7], pol=2, caps=[], prev=[])
+        yield from c02.gen_equal_margins(rng, n // 3)
+    c02.differential(ctx, 'exact-overaward-subtract', over_award(ctx.n(900, 9000) * widen))
+
+    def positional(n):
+        made = 0
+        for c in c13.gen(rng, n * 30):
+            if c['kind'] == 'positional' and made < n:
+                made += 1
+                yield dict(c, cfg=rng.choice([['geometric', 3], ['geometric', 5], ['geometric', 10], ['dowdall', 0], ['geometric', 3]]))
+    ctx.differential('exact-positional', positional(ctx.n(900, 9000) * widen), c13.model_line, c13.impl, canon=c13.canon, nontrivial=c13.nontrivial, spec=c13.spec)
     score_magnitude_check(ctx, 'score-magnitude')
     if ctx.tier == 'thorough':
         exhaustive_small(ctx, 'exhaustive-small-simple')
